@@ -31,6 +31,16 @@ def gen(rng, tier, no, wide=False):
         hi = max(e["ts"] + e["dur"] for e in xs) + 10
         host = next(e for e in xs if e.get("cat") == "cpu_op")
         ev[1:1] = [{"ph": "X", "cat": "cpu_op", "name": "aten::fill_", "pid": host["pid"], "tid": host["tid"], "ts": hi + 3 * k, "dur": 2} for k in range(1100)]
+        # ... and the device work sits on streams whose ids do not fit a signed byte
+        for e in ev:
+            a = e.get("args")
+            if isinstance(a, dict):
+                if isinstance(a.get("stream"), int) and a["stream"] > 0:
+                    a["stream"] += 200
+                    if e.get("tid") == a["stream"] - 200:
+                        e["tid"] = a["stream"]
+                if isinstance(a.get("wait_on_stream"), int) and a["wait_on_stream"] > 0:
+                    a["wait_on_stream"] += 200
     if rng.random() < 0.3:
         # clock jitter as real traces have it: a few events end one time unit late (a child past its parent, a kernel
         # into the next one of its stream). The analysis tolerates the resulting negative edge weights and reports
